@@ -370,3 +370,36 @@ def accessors_not_memoised(prog, names=('GetSectors', 'LookupSector', 'GetVariab
     if not out:
         raise AnalysisError('no discovery accessor found')
     return out
+
+
+def steady_state_covers_all_series(loop, subst):
+    """the acceptance / installation loop of the steady-state search ranges over every variable that has a series.
+    Decided for the two ways the collection is spelled in this package: the keys of a series holder (all of them), or a
+    concatenation of parser partitions (then the decorative partition must be part of it).  -> (ok, why)"""
+    it = resolve_expr(loop.iter, subst)
+    txt = unparse(it)
+    if 'TimeSeries' in txt or 'VariableList' in txt:
+        return True, 'the search tests and installs every variable of the series holder (`%s`)' % txt[:80]
+    parts = {x.attr for x in ast.walk(it) if isinstance(x, ast.Attribute) and x.attr in ('Endogenous', 'Lagged', 'Decoration', 'Exogenous')}
+    if parts:
+        ok = 'Decoration' in parts and 'Endogenous' in parts and 'Lagged' in parts
+        return ok, ('the search ranges over the parser partitions %s' % sorted(parts) if ok else
+                    'the search ranges over the parser partitions %s only: variables set aside by the simplification (decorative ones) are '
+                    'neither tested nor given their steady k=0 value - their series differs from the unsimplified system' % sorted(parts))
+    return True, 'the collection `%s` is not one this rule decides' % txt[:80]
+
+
+def steady_state_loop(prog):
+    """(raw funcinfo of the steady-state search, its acceptance loop in the flattened function, single-assignment map)"""
+    from ..solver_model import solver_function
+    from ..dataflow import target_names
+    ss_raw = solver_function(prog, 'steady_state')
+    ss = flatten(prog, ss_raw)
+    subst = single_assign_subst(ss.node)
+    loops = [n for n in ast.walk(ss.node) if isinstance(n, ast.For) and any(
+        isinstance(x, ast.Subscript) and isinstance(x.slice, ast.UnaryOp) for x in ast.walk(n)) and any(
+        isinstance(x, ast.Compare) and any(isinstance(y, ast.Attribute) and 'Toler' in y.attr
+                                           for y in ast.walk(resolve_expr(x, subst))) for x in ast.walk(n))]
+    if not loops:
+        raise AnalysisError('acceptance loop not found in ' + ss.qualname)
+    return ss_raw, loops[0], subst
